@@ -86,7 +86,10 @@ func (l *listener) AcceptWithContext(ctx context.Context) (net.Conn, error) {
 			return nil, ctx.Err()
 		}
 
-		if errors.Is(err, yamux.ErrSessionShutdown) || errors.Is(err, net.ErrClosed) {
+		// Only treat the session as closed if the listener was closed
+		// locally. If the server closed the connection we must reconnect.
+		if l.closeCtx.Err() != nil &&
+			(errors.Is(err, yamux.ErrSessionShutdown) || errors.Is(err, net.ErrClosed)) {
 			return nil, ErrClosed
 		}
 
